@@ -20,6 +20,11 @@ pub struct W {
     pub stop_nm: bool,
     pub crlf: bool,
     pub ctx_flag_style: usize,
+    /// -b: every printed line also carries the byte offset at which it starts.
+    pub byte_offset: bool,
+    /// --vimgrep: one output line per match, with line and column (only without context,
+    /// inversion and passthru).
+    pub vimgrep: bool,
 }
 
 pub fn gen(sub: u64) -> W {
@@ -42,6 +47,13 @@ pub fn gen(sub: u64) -> W {
         text.pop();
     }
     let ctx = rng.chance(2, 3);
+    let vimgrep = rng.chance(1, 8);
+    if vimgrep {
+        // (not with --crlf: the per-match printing path re-terminates every line with the
+        // configured terminator, so a bare LF comes out as CR LF there - a matter of presentation
+        // that the property does not speak about)
+        return W { text, a: 0, b: 0, passthru: false, invert: false, line_numbers: true, stop_nm: false, crlf: false, ctx_flag_style: 0, byte_offset: false, vimgrep: true };
+    }
     W {
         text,
         a: if ctx { rng.below(4) } else { 0 },
@@ -52,6 +64,8 @@ pub fn gen(sub: u64) -> W {
         stop_nm: rng.chance(1, 8),
         crlf,
         ctx_flag_style: rng.below(3),
+        byte_offset: rng.chance(1, 3),
+        vimgrep: false,
     }
 }
 
@@ -77,6 +91,12 @@ fn flags(w: &W) -> Vec<String> {
     if w.crlf {
         f.push("--crlf".into());
     }
+    if w.byte_offset {
+        f.push("-b".into());
+    }
+    if w.vimgrep {
+        f.push("--vimgrep".into());
+    }
     f.push("foo".into());
     f
 }
@@ -84,6 +104,32 @@ fn flags(w: &W) -> Vec<String> {
 /// Rendering of the grep model: the bytes rg is expected to print.
 pub fn model_output(w: &W) -> Vec<u8> {
     let lines_v: Vec<&[u8]> = w.text.split_inclusive(|&c| c == b'\n').collect();
+    let mut starts: Vec<usize> = vec![];
+    let mut off = 0;
+    for l in &lines_v {
+        starts.push(off);
+        off += l.len();
+    }
+    if w.vimgrep {
+        // every match on a line of its own: line number, 1-based column, the whole line
+        let mut out = vec![];
+        for (i, l) in lines_v.iter().enumerate() {
+            let mut at = 0;
+            while at + 3 <= l.len() {
+                if &l[at..at + 3] == b"foo" {
+                    out.extend_from_slice(format!("{}:{}:", i + 1, at + 1).as_bytes());
+                    out.extend_from_slice(l);
+                    if !l.ends_with(b"\n") {
+                        out.extend_from_slice(if w.crlf { b"\r\n" as &[u8] } else { b"\n" });
+                    }
+                    at += 3;
+                } else {
+                    at += 1;
+                }
+            }
+        }
+        return out;
+    }
     let sel: Vec<bool> = lines_v.iter().map(|l| l.windows(3).any(|x| x == b"foo") != w.invert).collect();
     let (a, b) = if w.passthru { (0, 0) } else { (w.a, w.b) };
     let any_ctx = a > 0 || b > 0;
@@ -111,6 +157,10 @@ pub fn model_output(w: &W) -> Vec<u8> {
             }
             if w.line_numbers {
                 out.extend_from_slice(format!("{}", i + 1).as_bytes());
+                out.push(k);
+            }
+            if w.byte_offset {
+                out.extend_from_slice(format!("{}", starts[i]).as_bytes());
                 out.push(k);
             }
             out.extend_from_slice(lines_v[i]);
